@@ -881,6 +881,12 @@ class Expander:
                     return v
             return T("attr", e.attr, [v], node=e)
         if isinstance(e, ast.Subscript):
+            sl = e.slice
+            none_ = lambda x: (isinstance(x, ast.Constant) and x.value is None) or (isinstance(x, ast.Attribute) and x.attr == "newaxis")
+            full_ = lambda x: (isinstance(x, ast.Slice) and x.lower is None and x.upper is None and x.step is None) or (isinstance(x, ast.Constant) and x.value is Ellipsis)
+            if isinstance(e.ctx, ast.Load) and (none_(sl) or (isinstance(sl, ast.Tuple) and len(sl.elts) == 2 and none_(sl.elts[0]) and full_(sl.elts[1]))):
+                # X[None] / X[None, :] / X[np.newaxis, ...]  is  expand_dims(X, axis=0)
+                return T("mcall", "expand_dims", [T("free", "jnp"), self._tr(e.value)], {"axis": T("const", 0)}, node=e)
             return T("sub", None, [self._tr(e.value), self._tr(e.slice)], node=e)
         if isinstance(e, ast.Slice):
             none = T("const", None)
@@ -897,6 +903,20 @@ class Expander:
                 recv = self._tr(f.value)
                 if f.attr == "to_numpy" and not args and not kw and recv.op == "attr" and recv.name in ("_nodes_in_view", "_edges_in_view") and self._rows_alias():
                     return recv
+                if recv.op == "free" and recv.name in ("np", "jnp", "numpy"):
+                    # array idioms with one spelling: vstack(L) is concatenate(L, axis=0) (for the 2-d arrays this code stacks);
+                    # pad(X, ((0, n), (0, 0))) with the default constant 0 is concatenate((X, zeros((n, X.shape[1]))))
+                    if f.attr == "vstack" and len(args) == 1 and not kw:
+                        return T("mcall", "concatenate", [recv, args[0]], {"axis": T("const", 0)}, node=e)
+                    if f.attr == "pad" and len(args) == 2 and (not kw or (set(kw) == {"mode"} and kw["mode"].op == "const" and kw["mode"].name == "constant")):
+                        w = args[1]
+                        z = lambda x: x.op == "const" and x.name == 0
+                        if w.op in ("tuple", "list") and len(w.args) == 2 and all(p_.op in ("tuple", "list") and len(p_.args) == 2 for p_ in w.args) and \
+                                z(w.args[0].args[0]) and z(w.args[1].args[0]) and z(w.args[1].args[1]):
+                            n_ = w.args[0].args[1]
+                            cols = T("sub", None, [T("attr", "shape", [args[0]]), T("const", 1)])
+                            zeros = T("mcall", "zeros", [recv, T("tuple", None, [n_, cols])], node=e)
+                            return T("mcall", "concatenate", [recv, T("tuple", None, [args[0], zeros])], node=e)
                 return T("mcall", f.attr, [recv] + args, kw, node=e)
             if isinstance(f, ast.Name):
                 b = self.bind.get(id(f))
